@@ -1,6 +1,11 @@
 package docpool
 
 import (
+	"fmt"
+	"strconv"
+	"strings"
+
+	"github.com/tsawler/tabula/zzharness/faults"
 	"github.com/tsawler/tabula/zzharness/officew"
 	"github.com/tsawler/tabula/zzharness/sim"
 )
@@ -12,9 +17,65 @@ func init() {
 	Generators["odt"] = func(r *sim.Rand) ([]byte, string) { return officew.ODT(r).Bytes(), ".odt" }
 	Generators["epub"] = func(r *sim.Rand) ([]byte, string) { return officew.EPUB(r).Bytes(), ".epub" }
 	Generators["htmlpage"] = func(r *sim.Rand) ([]byte, string) { return officew.HTML(r), ".html" }
+	Generators["officedamaged"] = damagedOffice
+	Generators["htmlrich"] = func(r *sim.Rand) ([]byte, string) { return RichHTML(r), ".html" }
+	for i := 0; i < 6; i++ {
+		ExtraSlots = append(ExtraSlots, "officedamaged", "htmlrich")
+	}
 	for _, k := range []string{"docx", "xlsx", "pptx", "odt", "epub", "htmlpage"} {
 		for i := 0; i < 4; i++ {
 			ExtraSlots = append(ExtraSlots, k)
 		}
 	}
+}
+
+// damagedOffice: a valid package from the independent writers with one fault of the
+// container / markup catalogue applied. What such a document yields is not judged, only
+// that it is the same every time (history, interleaving, map order).
+func damagedOffice(r *sim.Rand) ([]byte, string) {
+	kind := sim.Pick(r, []string{"docx", "xlsx", "xlsx", "pptx", "odt", "epub"})
+	var p *officew.Package
+	switch kind {
+	case "docx":
+		p = officew.DOCX(r)
+	case "xlsx":
+		p = officew.XLSX(r)
+	case "pptx":
+		p = officew.PPTX(r)
+	case "odt":
+		p = officew.ODT(r)
+	default:
+		p = officew.EPUB(r)
+	}
+	var all []faults.Fault
+	for _, m := range p.Members {
+		if strings.HasSuffix(m.Name, ".xml") || strings.HasSuffix(m.Name, ".rels") || strings.HasSuffix(m.Name, ".opf") || strings.HasSuffix(m.Name, ".xhtml") {
+			all = append(all, faults.EnumMarkup(m.Data, m.Name)...)
+		}
+	}
+	if r.Pct(25) || len(all) == 0 {
+		all = append(all, faults.EnumZip(p)...)
+	}
+	return faults.ApplyPackage(p, []faults.Fault{sim.Pick(r, all)}), "." + kind
+}
+
+var richNames = []string{"main-menu", "mainMenu", "MainMenu", "main_menu", "side-bar", "sideBar", "SIDEBAR", "sidebar", "foot-note", "footNote", "footer",
+	"Footer", "nav-bar", "navBar", "content", "article-body", "articleBody", "bread-crumb", "breadCrumb", "social-links", "socialLinks", "story"}
+
+// RichHTML: blocks whose class and id names come in several spellings of the same words
+// (hyphenated, camel case, upper case): whatever is decided about one spelling in one
+// document is not to be carried over to another spelling in the next document.
+func RichHTML(r *sim.Rand) []byte {
+	var b strings.Builder
+	b.WriteString("<!DOCTYPE html><html><head><title>rich</title></head><body><p>lead " + strconv.Itoa(r.Intn(1000)) + "</p>")
+	for i, n := 0, 3+r.Intn(6); i < n; i++ {
+		attr := sim.Pick(r, []string{"class", "id"})
+		name := sim.Pick(r, richNames)
+		if attr == "class" && r.Pct(30) {
+			name += " x" + strconv.Itoa(r.Intn(9))
+		}
+		fmt.Fprintf(&b, "<div %s=\"%s\"><p>block %d says %s</p><ul><li>item %d</li><li><a href=\"/a%d\">link %d</a></li></ul></div>", attr, name, i, sim.Pick(r, []string{"alpha", "bravo", "charlie"}), r.Intn(100), i, i)
+	}
+	b.WriteString("<h2>End " + strconv.Itoa(r.Intn(100)) + "</h2></body></html>")
+	return []byte(b.String())
 }
